@@ -724,6 +724,12 @@ class PortNamespace(collections.abc.MutableMapping, Port):
                 port_value = port_values[name]
 
             if isinstance(port, PortNamespace):
+                if isinstance(port_value, collections.abc.Mapping) and not isinstance(
+                    port_value, collections.abc.MutableMapping
+                ):
+                    # An immutable mapping, e.g. (part of) the ``inputs`` of another process: the recursive call needs
+                    # something it can fill in the defaults in
+                    port_value = dict(port_value)
                 port_values[name] = port.pre_process(port_value)
             else:
                 port_values[name] = port_value
